@@ -10,7 +10,9 @@ fn main() {
     let stdin = std::io::stdin();
     let stdout = std::io::stdout();
     let mut out = stdout.lock();
-    std::panic::set_hook(Box::new(|_| {}));
+    // VERIF_SHOW_PANIC=1: print the panic message (debugging aid; the result line stays PANIC)
+    let show = std::env::var_os("VERIF_SHOW_PANIC").is_some();
+    std::panic::set_hook(Box::new(move |info| { if show { eprintln!("{}", info); } }));
     for line in stdin.lock().lines() {
         let line = line.unwrap();
         if line.is_empty() { continue; }
